@@ -151,9 +151,10 @@ def _parse_record(vol, img, rec, where, root_dot=False):
         a = blk * SECTOR + off
         space = vol.iso.space_size or len(img) // SECTOR
         first_free = vol.iso.after_set_sector or 16       # system area + volume descriptor set
-        if off + ln > SECTOR or blk >= space or a + ln > len(img) or blk < first_free:
+        beyond = off + ln > SECTOR or blk >= space or a + ln > len(img)
+        if beyond or blk < first_free:
             vol.prob('susp:ce-outside', '%s: CE block %d offset %d length %d (volume: sectors %d..%d)' % (where, blk, off, ln, first_free, space - 1))
-            if blk >= first_free or ln == 0:
+            if beyond:                    # an area inside the system area is still followed
                 break
         hops += 1
         if hops > MAX_CE or any(a < y and x < a + ln for x, y in e.ce_areas):
